@@ -41,11 +41,11 @@ def contracts_module_of(reg, target):
     return None
 
 
-def run_native(modname, target, variant, seed, tier, budget):
+def run_native(modname, target, variant, seed, tier, budget, pid=None):
     env = dict(os.environ)
     env['PYTHONPATH'] = VERIF
     cmd = [NATIVE_PY, os.path.join(VERIF, 'pyvc', 'native.py'), 'search', modname, target, '--variant', variant,
-           '--seed', str(seed), '--tier', tier, '--budget', str(budget)]
+           '--seed', str(seed), '--tier', tier, '--budget', str(budget)] + (['--prop', pid] if pid else [])
     try:
         p = subprocess.run(cmd, capture_output=True, text=True, timeout=1200 if tier == 'thorough' else 300, env=env)
     except subprocess.TimeoutExpired:
@@ -99,6 +99,7 @@ def run_check(pid, tier, seed, args):
         return 3
     world = World()
     reg = Registry(world)
+    reg.current_prop = pid
     known = report.load_known_findings()
     report.apply_known_exclusions(reg, known, pid)
     targets = [c for c in reg.contracts.values() if pid in c.props]
@@ -135,7 +136,7 @@ def run_check(pid, tier, seed, args):
             failed = r.status != 'ok' or any(results[i]['verdict'] != 'unsat'
                                              for i, (rr, _) in enumerate(all_obs) if rr is r)
             budget = (60000 if failed else 6000) if tier == 'quick' else (400000 if failed else 60000)
-            jobs.append((contracts_module_of(reg, r.target), r.target, r.variant, seed, tier, budget))
+            jobs.append((contracts_module_of(reg, r.target), r.target, r.variant, seed, tier, budget, pid))
         with cf.ThreadPoolExecutor(max_workers=12) as ex:
             futs = {ex.submit(run_native, *j): j for j in jobs}
             for fu in cf.as_completed(futs):
